@@ -225,6 +225,9 @@ func neutralV(v gen.V) gen.V {
 	case "tostring":
 		v.Text = neutralS(v.Text)
 		v.Go = gen.ToStr{S: v.Text}
+	case "textm":
+		v.Text = neutralS(v.Text)
+		v.Go = gen.TextM{S: v.Text}
 	case "strs":
 		s := make([]string, len(v.Elems))
 		es := make([]gen.V, len(v.Elems))
